@@ -130,7 +130,10 @@ fn gen_name(dec: &mut Dec) -> Vec<u8> {
 fn gen_rel(dec: &mut Dec, model: &Tree, want_existing: u32) -> Vec<u8> {
     // bias towards paths that exist in the model (or their children)
     if !model.is_empty() && dec.chance(K::Arg, want_existing, 4) {
-        let keys: Vec<&Vec<u8>> = model.keys().collect();
+        // a third of the time among directories only (a populated directory's entries would
+        // otherwise draw nearly every pick away from the directory itself)
+        let dirs: Vec<&Vec<u8>> = model.iter().filter(|(_, v)| matches!(v, Node::Dir)).map(|(k, _)| k).collect();
+        let keys: Vec<&Vec<u8>> = if !dirs.is_empty() && dec.chance(K::Arg, 1, 3) { dirs } else { model.keys().collect() };
         let k = keys[dec.choose(K::Arg, keys.len() as u32) as usize].clone();
         if dec.chance(K::Arg, 1, 3) {
             let mut k = k;
